@@ -66,16 +66,16 @@ Fixpoint splitlines (s : text) : list text :=
 Definition is_space (c : ascii) : bool :=
   let n := code c in ((9 <=? n) && (n <=? 13)) || ((28 <=? n) && (n <=? 32)).
 
-Fixpoint split_ws (s : text) : list text :=
+Fixpoint sv_split_ws (s : text) : list text :=
   match s with
   | [] => []
   | c :: t =>
-    if is_space c then split_ws t
+    if is_space c then sv_split_ws t
     else match t with
          | [] => [[c]]
          | d :: _ =>
-           if is_space d then [c] :: split_ws t
-           else match split_ws t with
+           if is_space d then [c] :: sv_split_ws t
+           else match sv_split_ws t with
                 | l :: ls => (c :: l) :: ls
                 | [] => [[c]]
                 end
@@ -98,7 +98,7 @@ Fixpoint parse_digits (acc : Z) (prev : bool) (s : text) : option Z :=
     else None
   end.
 
-Definition parse_int (s : text) : option Z :=
+Definition sv_parse_int (s : text) : option Z :=
   match s with
   | [] => None
   | c :: t =>
@@ -112,7 +112,7 @@ Fixpoint parse_ints (toks : list text) : option (list Z) :=
   match toks with
   | [] => Some []
   | t :: rest =>
-    match parse_int t, parse_ints rest with
+    match sv_parse_int t, parse_ints rest with
     | Some z, Some zs => Some (z :: zs)
     | _, _ => None
     end
@@ -183,13 +183,13 @@ Fixpoint parse_lines (q : quirks) (lines : list text) (result : option bool) (wi
     | [] => parse_lines q rest result witness
     | c :: _ =>
       if code c =? 115 then                                  (* 's' *)
-        match split_ws line with
+        match sv_split_ws line with
         | _ :: w :: _ => parse_lines q rest (status_of w) witness
         | _ => if q_crash q then SCrash IndexError            (* line.split()[1] *)
                else parse_lines q rest None witness          (* repaired: an unknown status *)
         end
       else if code c =? 118 then                             (* 'v' *)
-        match parse_ints (filter keep_value (split_ws line)) with
+        match parse_ints (filter keep_value (sv_split_ws line)) with
         | Some zs => parse_lines q rest result (witness ++ zs)
         | None => crashed q IntValueError
         end
@@ -201,7 +201,7 @@ Definition parse_stdout (q : quirks) (output : text) : sres := parse_lines q (sp
 
 (* the result file of the minisat convention *)
 Definition parse_minisat (q : quirks) (file : text) : sres :=
-  match split_ws file with
+  match sv_split_ws file with
   | [] => SRuntimeError
   | w :: rest =>
     if text_eqb w t_SAT then
@@ -253,7 +253,7 @@ Fixpoint first_installed (tab : list (text * iface)) (installed : text -> bool) 
 Definition sat_solve (q : quirks) (cmd sameas : option text) (installed : text -> bool) (world : iface -> text -> text) : outcome :=
   if match sameas with Some s => negb (supported s) | None => false end then OValueError
   else
-    match (match cmd with None => [] | Some c => split_ws c end) with
+    match (match cmd with None => [] | Some c => sv_split_ws c end) with
     | [] =>
       (* no command: try every supported solver; `sameas` is reset to None *)
       match first_installed solver_table installed with
